@@ -191,6 +191,11 @@ side_by_side_tiff_start(struct Storage* self_) noexcept
         if (self->props.external_metadata_json.nbytes) {
             const auto metadata_path =
               (path / "metadata.json").generic_string();
+            // file_create() does not truncate. Remove the metadata file of
+            // an earlier acquisition, otherwise the tail of a longer one
+            // survives behind the new contents.
+            std::error_code ec;
+            fs::remove(metadata_path, ec);
             struct file file
             {};
             CHECK(file_create(
